@@ -152,13 +152,12 @@ func checkC06(c *Ctx) {
 		ok := ci == ssa.CallInstruction(m.readReq) && isCall(ci)
 		R.Check(ok, "C06-sequential-read", fname(ci.Parent())+": readRequest", c.pos(ci), "only the read loop reads, synchronously, on the connection goroutine", "readRequest is called from a second place or asynchronously: arrival order no longer equals numbering order")
 	}
-	for _, ci := range callSites(shipped, isStatic(G, "(*conn).readPacket")) {
-		R.Check(ci.Parent() == readRequest && isCall(ci), "C06-sequential-read", fname(ci.Parent())+": readPacket", c.pos(ci), "only readRequest reads packets", "readPacket is called outside readRequest")
-	}
 	for _, ci := range callSites(shipped, func(cc *ssa.CallCommon) bool { return an.CalleeIs(cc, an.PkgBer, "ReadPacket") }) {
-		R.Check(fname(ci.Parent()) == "(*conn).readPacket$1" || fname(ci.Parent()) == "(*conn).readPacket", "C06-sequential-read", fname(ci.Parent())+": ber.ReadPacket", c.pos(ci), "single reader of the stream", "ber.ReadPacket is called outside readPacket")
+		// the stream has one reader: every ber.ReadPacket runs as part of readRequest, synchronously
+		ok, why := syncOnlyFrom(ci.Parent(), readRequest, shipped, 0)
+		R.Check(ok && isCall(ci), "C06-sequential-read", fname(ci.Parent())+": ber.ReadPacket", c.pos(ci), "reached only through synchronous calls from readRequest: single reader of the stream", "ber.ReadPacket can run outside the read loop's readRequest: "+why)
 	}
-	R.Floor("C06-sequential-read", 3)
+	R.Floor("C06-sequential-read", 2)
 
 	// ---- C06-async
 	isUnbind, isTLS := c.isUnbindAtom(), c.isStartTLSAtom()
